@@ -507,9 +507,10 @@ fn session_sweep(ctx: &Ctx, p: &Proto, thorough: bool) {
                 }
                 // getters never panic
                 for s in SIDES {
-                    let r = catch_unwind(AssertUnwindSafe(|| e.getters(s)));
-                    if r.is_err() {
-                        ctx.violation("a state query panicked", format!("{} after {j} calls", p.name), sess::case_json(&cfg, &prefix));
+                    if let Some(q) = query_panics(&e, s) {
+                        let mut c = sess::case_json(&cfg, &prefix);
+                        c["kind"] = json!("query");
+                        ctx.violation(format!("a state query panicked ({q})"), format!("{} {s:?} after {j} calls", p.name), c);
                     }
                 }
                 end();
@@ -547,8 +548,15 @@ fn session_sweep(ctx: &Ctx, p: &Proto, thorough: bool) {
                 ctx.violation(format!("{} panicked ({m})", sess::op_kind(op).split('(').next().unwrap_or("call")), format!("{}: {op:?}", p.name), sess::case_json(&cfg, &ops));
             }
         }
-        for m in sess::filter(&e, &[Cat::Panic]) {
-            let _ = m;
+        // state queries of the transport objects, after all those probes
+        for s in SIDES {
+            if let Some(q) = query_panics(&e, s) {
+                let mut ops = prefix.clone();
+                ops.extend(probes.iter().cloned());
+                let mut c = sess::case_json(&cfg, &ops);
+                c["kind"] = json!("query");
+                ctx.violation(format!("a state query panicked ({q})"), format!("{} {s:?} in transport mode", p.name), c);
+            }
         }
         end();
     }
@@ -596,7 +604,62 @@ pub fn run(tier: Tier) -> i32 {
     ctx.finish()
 }
 
+/// every state query of whatever object the side currently holds, each inside catch_unwind
+fn query_panics(e: &Exec, s: Side) -> Option<String> {
+    use crate::exec::RealEnd;
+    let probe = |name: &str, f: &dyn Fn()| -> Option<String> { catch_unwind(AssertUnwindSafe(f)).err().map(|p| format!("{name}: {}", panic_msg(p))) };
+    match &e.real[s.idx()] {
+        RealEnd::Hs(h) => probe("is_my_turn", &|| {
+            let _ = h.is_my_turn();
+        })
+        .or_else(|| probe("is_handshake_finished", &|| {
+            let _ = h.is_handshake_finished();
+        }))
+        .or_else(|| probe("is_initiator", &|| {
+            let _ = h.is_initiator();
+        }))
+        .or_else(|| probe("get_handshake_hash", &|| {
+            let _ = h.get_handshake_hash().len();
+        }))
+        .or_else(|| probe("get_remote_static", &|| {
+            let _ = h.get_remote_static().map(<[u8]>::len);
+        }))
+        .or_else(|| probe("was_write_payload_encrypted", &|| {
+            let _ = h.was_write_payload_encrypted();
+        })),
+        RealEnd::T(t) => probe("get_remote_static", &|| {
+            let _ = t.get_remote_static().map(<[u8]>::len);
+        })
+        .or_else(|| probe("sending_nonce", &|| {
+            let _ = t.sending_nonce();
+        }))
+        .or_else(|| probe("receiving_nonce", &|| {
+            let _ = t.receiving_nonce();
+        }))
+        .or_else(|| probe("is_initiator", &|| {
+            let _ = t.is_initiator();
+        })),
+        RealEnd::S(t) => probe("get_remote_static", &|| {
+            let _ = t.get_remote_static().map(<[u8]>::len);
+        })
+        .or_else(|| probe("is_initiator", &|| {
+            let _ = t.is_initiator();
+        })),
+        RealEnd::Gone => None,
+    }
+}
+
 pub fn replay(case: &serde_json::Value) -> Result<(), String> {
+    if case["kind"] == "query" {
+        let (cfg, ops) = sess::case_from_json(case).ok_or("bad case")?;
+        let e = sess::run(&cfg, &ops);
+        for s in SIDES {
+            if let Some(q) = query_panics(&e, s) {
+                return Err(format!("a state query panicked ({q}) by {s:?}"));
+            }
+        }
+        return Ok(());
+    }
     match case["kind"].as_str() {
         Some("exec") => {
             let (cfg, ops) = sess::case_from_json(case).ok_or("bad case")?;
